@@ -3,7 +3,8 @@ From Coq Require Import QArith Qcanon ZArith List Bool String Permutation.
 Require Import CGT.Model.Num CGT.Model.Date CGT.Model.Ledger CGT.Model.Match CGT.Model.Agg CGT.Model.Report CGT.Model.Config
                CGT.Proofs.AggFacts CGT.Proofs.LedgerFacts.
 Require Import CGT.Proofs.FillFacts.
-Require Import CGT.Model.Dsl CGT.Proofs.DslFiles.
+Require Import CGT.Model.Dsl CGT.Proofs.DslFiles CGT.Proofs.CliFiles.
+Require CGT.Model.Cli.
 From Coq Require Import Ascii.
 Import ListNotations.
 Open Scope Qc_scope.
@@ -46,6 +47,27 @@ Theorem C06_file_join : forall valid_cur s1 s2 t1 t2, parse valid_cur s1 = inr t
   parse valid_cur (s1 ++ ch 10 :: s2) = inr (t1 ++ t2).
 Proof. exact parse_join. Qed.
 Print Assumptions C06_file_join.
+
+(* Any number of files, through the command layer (Model/Cli.v): if the files are all readable and each is read successfully, `report` over
+   them does exactly what it would do with the concatenation of their transaction lists - for any rate loader, configuration, calculator and
+   formatters, any year, format and output path. *)
+Theorem C06_files_join : forall valid_cur cs ts, Forall2 (fun c t => parse valid_cur c = inr t) cs ts ->
+  parse valid_cur (Cli.join_nl cs) = inr (List.concat ts).
+Proof. exact parse_join_all. Qed.
+Print Assumptions C06_files_join.
+Theorem C06_report_over_files : forall valid_cur (Fx Cfg Rep : Type) (load_fx : option Cli.path -> option Fx) (load_cfg : option Cfg)
+    (calc : list dtxn -> option N -> Fx -> Cfg -> option Rep) (fmt_plain fmt_json fmt_pdf : Rep -> option text)
+    fs files year fmt output fx cs ts,
+  Cli.read_all fs files = Some cs -> Forall2 (fun c t => parse valid_cur c = inr t) cs ts ->
+  Cli.report_cmd (parse_opt valid_cur) load_fx load_cfg calc fmt_plain fmt_json fmt_pdf fs files year fmt output fx =
+  Cli.report_cmd (fun _ => Some (List.concat ts)) load_fx load_cfg calc fmt_plain fmt_json fmt_pdf fs files year fmt output fx.
+Proof. intros vc Fx Cfg Rep lf lc calc f1 f2 f3 fs files year fmt output fx cs ts Hr Hp. exact (report_over_files vc lf lc calc f1 f2 f3 fs files year fmt output fx cs ts Hr Hp). Qed.
+Print Assumptions C06_report_over_files.
+Example C06_files_join_applies :
+  let a := T "2024-01-01 BUY A 10 @ 1" in let b := T "2024-06-01 SELL A 5 @ 2 # sold\n" in let c := T "" in
+  exists ta tb, parse (fun _ => true) a = inr [ta] /\ parse (fun _ => true) b = inr [tb] /\ parse (fun _ => true) c = inr [] /\
+                parse (fun _ => true) (Cli.join_nl [a; c; b]) = inr [ta; tb].
+Proof. cbv zeta. eexists. eexists. repeat split; vm_compute; reflexivity. Qed.
 
 (* non-vacuity: a two-security ledger with a same-day purchase and sale, reversed *)
 Definition c06_ledger : list gtxn :=
